@@ -134,8 +134,9 @@ class NDCode:
 
     def __init__(self, code, wides=()):
         self.code = code
-        self.mult = 1
-        self.wides = wides
+        self.n = CODEMAX          # the digits are read most-significant first by splitting [0, n) into equal
+        self.off = 0              # sub-intervals: only linear comparisons with constants reach the solver
+        self.wides = wides        # (div/mod digit extraction made queries ~8x slower)
         self.wi = 0
 
     def draw(self, lo, hi):
@@ -148,9 +149,17 @@ class NDCode:
             if not (lo <= v <= hi):
                 raise Prune()
             return v
-        d = (self.code // self.mult) % base
-        self.mult *= base
-        return lo + pick(d, 0, base - 1)
+        if base == 1:
+            return lo
+        width = self.n // base
+        if width == 0:
+            raise Prune()         # more digits than CODEMAX provides
+        for d in range(base):
+            if self.code < self.off + (d + 1) * width:
+                self.off += d * width
+                self.n = width
+                return lo + d
+        raise Prune()             # the unused tail of the interval
 
     def flag(self):
         return self.draw(0, 1) == 1
@@ -159,7 +168,7 @@ class NDCode:
         return 1 << 30
 
 
-CODEMAX = 10 ** 15
+CODEMAX = 10 ** 40
 
 
 class _CheapTraceback:
